@@ -603,10 +603,28 @@ def toR : VStmt → Option RStmt
     | _, _ => none
   | .inst ty nm pins => (toPins pins).map fun l => .inst ty nm l
 
+def toRs : List VStmt → Option (List RStmt)
+  | [] => some []
+  | st :: r =>
+    match toR st, toRs r with
+    | some a, some l => some (a :: l)
+    | _, _ => none
+
 /-- an instantiation with a positional pin makes `VerilogTransformer.module` raise (`pin_is_output` asserts on the integer key) -/
 def VStmt.hasPos : VStmt → Bool
   | .inst _ _ pins => pins.any VPin.isPos
   | _ => false
+
+/-- text → netlist: what the post-parse model (`Model/Netlist.lean`) builds from the model's own reading of the text;
+`none`: the text is rejected, does not hold exactly one module, or uses a name outside the modelled domain (`toSel`).
+Positional pins (`VStmt.hasPos`) make the real `module()` raise; they set `err`. -/
+def circOfText (cfg : KV.Netlist.Cfg) (tl : KV.Netlist.TL) (text : String) : Option KV.Netlist.Circ :=
+  match parseVerilog text with
+  | some [m] =>
+    match toRs m.stmts with
+    | some rs => some ((KV.Netlist.module cfg tl m.ports (rs.map KV.Netlist.transform)).failIf (m.stmts.any VStmt.hasPos))
+    | none => none
+  | _ => none
 
 /-! ## printing -/
 
